@@ -46,7 +46,7 @@ type listSpec struct {
 	dir        int
 	shape      int
 	goexit     bool
-	typeHelper bool
+	typeHelper int // 0 none, 1 recording (symmetric), 2 recording with an asymmetric AssertEqual (zero fields of expected are not compared)
 	cases      []caseSpec
 }
 
@@ -121,6 +121,11 @@ func unsatisfied(dir int, c caseSpec) bool {
 		// a nil interface value can neither be marshaled nor be the target of a decode
 		return true
 	}
+	if c.wildcard && dir == dirUnmarshal {
+		// the asymmetric TypeHelper compares the case number only: a decode that sets any
+		// payload for the right case is accepted
+		return c.beh != bRight && c.beh != bWrong
+	}
 	return c.beh != bRight
 }
 
@@ -168,7 +173,7 @@ func predicate(c caseSpec, i int) test.AssertErrorFunc {
 	case pExactNear:
 		return test.Error(head[:len(head)-1])
 	case pPrefixMet:
-		return test.ErrorHasPrefix(short)
+		return test.ErrorHasPrefix(head) // the whole known beginning, including any '%' in it
 	case pPrefixUnmet:
 		return test.ErrorHasPrefix("zzz")
 	case pPrefixNear:
@@ -180,7 +185,7 @@ func predicate(c caseSpec, i int) test.AssertErrorFunc {
 	case pSuffixNear:
 		return test.ErrorHasSuffix(head[1 : len(head)-1])
 	case pMatchMet:
-		return test.ErrorMatch("^" + regexp.QuoteMeta(short))
+		return test.ErrorMatch("^" + regexp.QuoteMeta(head))
 	case pMatchUnmet:
 		return test.ErrorMatch("^zzz$")
 	case pMatchNear:
@@ -208,7 +213,10 @@ func predicate(c caseSpec, i int) test.AssertErrorFunc {
 var constraints = [...]test.Constraint{0, test.OnlyMarshal, test.OnlyUnmarshal}
 
 // recHelper is a recording TypeHelper with its own, correct, comparisons.
-type recHelper[T any] struct{ l *listRun }
+type recHelper[T any] struct {
+	l    *listRun
+	asym bool
+}
 
 func (h recHelper[T]) New(value T) T {
 	h.l.events = append(h.l.events, event{"typehelper.New", h.l.lastSeen})
@@ -242,23 +250,83 @@ func (h recHelper[T]) AssertEmpty(t test.TestingT, value T, failInfo string) {
 
 func (h recHelper[T]) AssertEqual(t test.TestingT, expected, actual T, failInfo string) {
 	h.l.events = append(h.l.events, event{"typehelper.AssertEqual", h.l.lastSeen})
-	if !reflect.DeepEqual(expected, actual) {
+	eq := reflect.DeepEqual(expected, actual)
+	if h.asym {
+		eq = matches(reflect.ValueOf(expected), reflect.ValueOf(actual))
+	}
+	if !eq {
 		t.Errorf("typehelper: not equal: %s", failInfo)
 	}
+}
+
+// matches is an asymmetric comparison: zero-valued fields of expected are wildcards.
+func matches(exp, act reflect.Value) bool {
+	for exp.Kind() == reflect.Ptr || exp.Kind() == reflect.Interface {
+		if exp.IsNil() {
+			return !act.IsValid() || ((act.Kind() == reflect.Ptr || act.Kind() == reflect.Interface) && act.IsNil())
+		}
+		if !act.IsValid() || (act.Kind() != reflect.Ptr && act.Kind() != reflect.Interface) || act.IsNil() {
+			return false
+		}
+		exp, act = exp.Elem(), act.Elem()
+	}
+	if exp.Kind() != reflect.Struct || act.Kind() != reflect.Struct || exp.Type() != act.Type() {
+		return reflect.DeepEqual(exp.Interface(), act.Interface())
+	}
+	for i := 0; i < exp.NumField(); i++ {
+		if exp.Field(i).IsZero() {
+			continue
+		}
+		if !reflect.DeepEqual(exp.Field(i).Interface(), act.Field(i).Interface()) {
+			return false
+		}
+	}
+	return true
 }
 
 func runEnc[T any](l *listRun, ls listSpec, mk func(i int, c caseSpec) T) {
 	rec := &recorder{l}
 	var th test.TypeHelper[T]
-	if ls.typeHelper {
-		th = recHelper[T]{l}
+	if ls.typeHelper != 0 {
+		th = recHelper[T]{l, ls.typeHelper == 2}
+	}
+	// listed is the case as the caller wrote it; right is what its Before hook turns it into
+	// when the case is of the "adjust" kind
+	listedData := func(i int, c caseSpec) string {
+		if c.adjust && ls.dir == dirMarshal {
+			return c.data(i) + "#listed-wrong"
+		}
+		return c.data(i)
+	}
+	listedValue := func(i int, c caseSpec) T {
+		if c.adjust && ls.dir == dirUnmarshal {
+			w := c
+			w.payload += "#listed-wrong"
+			return mk(i, w)
+		}
+		if c.wildcard {
+			w := c
+			w.payload = ""
+			return mk(i, w)
+		}
+		return mk(i, c)
 	}
 	switch ls.enc {
 	case kText:
 		cases := make([]test.CaseText[T], len(ls.cases))
 		for i, c := range ls.cases {
 			cases[i] = test.CaseText[T]{Constraint: constraints[c.constraint], Before: hook[test.CaseText[T]](l, i, c.before, "before"), After: hook[test.CaseText[T]](l, i, c.after, "after"),
-				Error: predicate(c, i), Data: c.data(i), Value: mk(i, c)}
+				Error: predicate(c, i), Data: listedData(i, c), Value: listedValue(i, c)}
+			if c.adjust {
+				i, c := i, c
+				cases[i].Before = func(idx int, cc *test.CaseText[T]) error {
+					l.hookIndex("before", i, idx)
+					l.seen("before", i)
+					cc.Data = c.data(i)
+					cc.Value = mk(i, c)
+					return nil
+				}
+			}
 		}
 		if ls.dir == dirMarshal {
 			test.MarshalText(rec, cases)
@@ -269,7 +337,17 @@ func runEnc[T any](l *listRun, ls listSpec, mk func(i int, c caseSpec) T) {
 		cases := make([]test.CaseBinary[T], len(ls.cases))
 		for i, c := range ls.cases {
 			cases[i] = test.CaseBinary[T]{Constraint: constraints[c.constraint], Before: hook[test.CaseBinary[T]](l, i, c.before, "before"), After: hook[test.CaseBinary[T]](l, i, c.after, "after"),
-				Error: predicate(c, i), Data: []byte(c.data(i)), Value: mk(i, c)}
+				Error: predicate(c, i), Data: []byte(listedData(i, c)), Value: listedValue(i, c)}
+			if c.adjust {
+				i, c := i, c
+				cases[i].Before = func(idx int, cc *test.CaseBinary[T]) error {
+					l.hookIndex("before", i, idx)
+					l.seen("before", i)
+					cc.Data = []byte(c.data(i))
+					cc.Value = mk(i, c)
+					return nil
+				}
+			}
 		}
 		if ls.dir == dirMarshal {
 			test.MarshalBinary(rec, cases)
@@ -280,7 +358,17 @@ func runEnc[T any](l *listRun, ls listSpec, mk func(i int, c caseSpec) T) {
 		cases := make([]test.CaseJSON[T], len(ls.cases))
 		for i, c := range ls.cases {
 			cases[i] = test.CaseJSON[T]{Constraint: constraints[c.constraint], Before: hook[test.CaseJSON[T]](l, i, c.before, "before"), After: hook[test.CaseJSON[T]](l, i, c.after, "after"),
-				Error: predicate(c, i), Data: c.data(i), Value: mk(i, c)}
+				Error: predicate(c, i), Data: listedData(i, c), Value: listedValue(i, c)}
+			if c.adjust {
+				i, c := i, c
+				cases[i].Before = func(idx int, cc *test.CaseJSON[T]) error {
+					l.hookIndex("before", i, idx)
+					l.seen("before", i)
+					cc.Data = c.data(i)
+					cc.Value = mk(i, c)
+					return nil
+				}
+			}
 		}
 		if ls.dir == dirMarshal {
 			test.MarshalJSON(rec, cases)
@@ -351,7 +439,7 @@ func execList(ls listSpec, keepMsgs bool) (l *listRun, escaped interface{}) {
 func judge(ls listSpec, l *listRun, escaped interface{}) *core.Violation {
 	h := ls.helper()
 	mk := func(inv, key, detail string) *core.Violation {
-		return &core.Violation{Property: "C20", Invariant: inv, Key: h + ":" + key, Detail: fmt.Sprintf("%s on %s (FailNow %s, TypeHelper %v): %s", h, shapeNames[ls.shape], map[bool]string{false: "returns", true: "exits goroutine"}[ls.goexit], ls.typeHelper, detail)}
+		return &core.Violation{Property: "C20", Invariant: inv, Key: h + ":" + key, Detail: fmt.Sprintf("%s on %s (FailNow %s, TypeHelper %d): %s", h, shapeNames[ls.shape], map[bool]string{false: "returns", true: "exits goroutine"}[ls.goexit], ls.typeHelper, detail)}
 	}
 	// L3 containment
 	if escaped != nil {
@@ -419,6 +507,15 @@ func normalise(ls *listSpec) {
 		if c.nilValue && (!ptrShape || ls.dir != dirUnmarshal) {
 			c.nilValue = false
 		}
+		if c.adjust && (c.before != hAbsent && c.before != hPass || c.nilValue || c.nilIface || c.beh == bNilReceiver) {
+			c.adjust = false
+		}
+		if c.adjust {
+			c.before = hPass
+		}
+		if c.wildcard && (ls.typeHelper != 2 || ls.dir != dirUnmarshal || c.pred != pNone || c.nilValue || c.nilIface || c.adjust) {
+			c.wildcard = false
+		}
 		if c.nilIface {
 			if ls.shape != shIface || i == 0 {
 				// on the first case a nil interface value is indistinguishable from a type
@@ -446,13 +543,13 @@ func normalise(ls *listSpec) {
 			c.payload = "p"
 		}
 	}
-	if !ls.hasInterface() {
-		ls.typeHelper = false
+	if !ls.hasInterface() || ls.dir == dirMarshal {
+		ls.typeHelper = 0
 	}
 }
 
 func describe(ls listSpec) []string {
-	out := []string{fmt.Sprintf("%s on %s, %d cases, FailNow-exits=%v, TypeHelper=%v", ls.helper(), shapeNames[ls.shape], len(ls.cases), ls.goexit, ls.typeHelper)}
+	out := []string{fmt.Sprintf("%s on %s, %d cases, FailNow-exits=%v, TypeHelper=%d", ls.helper(), shapeNames[ls.shape], len(ls.cases), ls.goexit, ls.typeHelper)}
 	for i, c := range ls.cases {
 		out = append(out, fmt.Sprintf("  case %d: %s payload=%q", i, c.sig(), c.payload))
 	}
